@@ -2,8 +2,8 @@
 //!
 //! Oracle A (call-log model): a logging `gix_fs::stack::Delegate` that rejects callbacks
 //! according to a seeded plan maintains, from its own call log only, the set of possible
-//! "pushed and not yet popped" directory lists (a rejected `push_directory` may or may not
-//! count as pushed, so both possibilities are kept). After every call to
+//! "pushed and not yet popped" directory list (this delegate registers a directory only when it
+//! accepts `push_directory`, so a rejected call is exactly "not pushed"). After every call to
 //! `make_relative_path_current` the public accessors are compared with the request and the
 //! model; then *probe* continuations (unwind to an unrelated path, descend below the current
 //! path, repeat it, go to a sibling) are run on a clone of the stack with a never-rejecting
@@ -54,11 +54,7 @@ impl Model {
                 t.push(d.to_string());
                 next.push(t);
             } else {
-                if !has {
-                    let mut t = s.clone();
-                    t.push(d.to_string());
-                    next.push(t);
-                }
+                // our delegate registers nothing when it rejects: the directory is exactly "not pushed"
                 next.push(s);
             }
         }
@@ -498,14 +494,16 @@ pub fn run(ctx: &mut Ctx) {
     ctx.rule(
         "A: sequences of make_relative_path_current over components {a,b,c,d} (depth<=4, biased to share a prefix with the \
          previous path; ~4% adversarial/empty paths), delegate rejecting per plan (exhaustive: <=3 calls over {a,b} depth<=3 with \
-         every single and double rejection position in the last call; random: one fault, p=0.15 on push, p=0.15 on all callbacks); \
+         every single and double rejection position in the last call; directed: leaf P then P/x with exactly push_directory(P) rejected at \
+         depth 1..5 and six continuations; random: one fault, p=0.15 on push, p=0.15 on all callbacks); \
          after every call accessors + call-log model + 4 probe continuations on a clone. distinct = (common prefix with previous \
          path, rejected callback sites, depth change, path class, result). B: gix_worktree::Stack::at_path sequences on a scratch \
          worktree with real .gitattributes/.gitignore, rejected pushes, answers compared with a fresh stack; distinct = (state kind, \
          rejection kind, relation of next path).",
     );
-    ctx.assume("a rejected push_directory may or may not have taken effect in the delegate: both possibilities are tracked");
+    ctx.assume("the model delegate registers a directory only when it accepts push_directory; a rejected call leaves it unregistered, so the stack must neither pop it later nor treat it as entered");
     exhaustive(ctx);
+    directed_leaf_descent(ctx);
     random_sequences(ctx);
     worktree_level(ctx);
 }
@@ -568,6 +566,44 @@ fn exhaustive(ctx: &mut Ctx) {
         }
     }
     ctx.count_n("exhaustive_scenarios", n);
+}
+
+/// P becomes current as a leaf, the next path extends it: the stack calls push_directory(P) without a preceding push().
+/// Reject exactly that call, at every depth 1..=5, then continue outside of P, inside of P, and with P itself.
+fn directed_leaf_descent(ctx: &mut Ctx) {
+    let comps = ["a", "b", "a", "b", "c"];
+    let mut n = 0u64;
+    for depth in 1..=comps.len() {
+        let p = comps[..depth].join("/");
+        for below in ["x", "x/y"] {
+            for after in [vec![], vec!["zz".to_string()], vec![format!("{p}/x")], vec![format!("{p}/w"), "zz".to_string()], vec![p.clone(), "zz".to_string()], vec![comps[..depth - 1].join("/") + if depth > 1 { "/s" } else { "s" }]] {
+                for setup_first in [false, true] {
+                    let mut seq: Vec<String> = Vec::new();
+                    if setup_first {
+                        seq.push("b/q".into());
+                    }
+                    seq.push(p.clone());
+                    // callbacks are counted over the whole sequence: find the index of the first callback of the descent call
+                    let start = {
+                        let mut stack = Stack::new(PathBuf::from("/gxv-c42-root"));
+                        let mut model = Model::new();
+                        let mut plan = Plan::Never;
+                        let mut cb = 0usize;
+                        for q in &seq {
+                            let _ = judged_call(&mut stack, &mut model, &mut plan, &mut cb, q);
+                        }
+                        cb
+                    };
+                    seq.push(format!("{p}/{below}"));
+                    seq.extend(after.iter().cloned());
+                    let desc = json!({"kind": "directed-leaf-descent", "sequence": seq, "reject_callback_indices": [start]});
+                    run_sequence(ctx, "directed", &seq, Plan::At(vec![start]), desc);
+                    n += 1;
+                }
+            }
+        }
+    }
+    ctx.count_n("directed_leaf_descent_scenarios", n);
 }
 
 fn random_sequences(ctx: &mut Ctx) {
@@ -767,7 +803,12 @@ fn failure_category(e: &std::io::Error, intended: &'static str) -> &'static str 
     let msg = e.to_string();
     if matches!(e.raw_os_error(), Some(20) | Some(21) | Some(40)) {
         // ENOTDIR / EISDIR / ELOOP while reading .gitattributes or .gitignore: push_directory failed
-        "unreadable-attr-or-ignore-file"
+        if intended == "below-previous-leaf" || intended == "retry-below-previous-leaf" {
+            // ... for the leaf of the previous path, which is pushed as directory without a preceding push()
+            "unreadable-attr-or-ignore-file-of-previous-leaf"
+        } else {
+            "unreadable-attr-or-ignore-file"
+        }
     } else if msg.contains(".git name") || msg.contains(".gitmodules") {
         if intended == "invalid-last" {
             "invalid-component-last"
@@ -828,9 +869,27 @@ fn worktree_level(ctx: &mut Ctx) {
         let calls = r.range(6, 40);
         let mut history: Vec<Value> = Vec::new();
         let mut last_failure: &'static str = "no-failure";
+        // follow-up calls that must come right after the current one (leaf first, then a path below that leaf)
+        let mut pending: Vec<(String, Option<Mode>, &'static str)> = Vec::new();
         for _ in 0..calls {
             // pick a path: mostly clean, sometimes one that the delegate rejects
-            let (rel, mode, class): (String, Option<Mode>, &'static str) = match r.below(10) {
+            let (rel, mode, class): (String, Option<Mode>, &'static str) = if !pending.is_empty() {
+                pending.remove(0)
+            } else {
+              match r.below(12) {
+                10 | 11 if !tree.poison_attr.is_empty() || !tree.poison_ignore.is_empty() || !tree.blockers.is_empty() => {
+                    // P is made current as a leaf; the next path extends it, so the stack turns P into a directory without a
+                    // preceding push() and the delegate fails to read P/.gitattributes or P/.gitignore; then a retry inside P
+                    // or (through the probes and the following calls) a path outside of it.
+                    let mut cands: Vec<(String, Option<Mode>)> = tree.poison_attr.iter().chain(tree.poison_ignore.iter()).map(|d| (d.clone(), Some(Mode::DIR))).collect();
+                    cands.extend(tree.blockers.iter().map(|b| (b.clone(), Some(Mode::FILE))));
+                    let (p, m) = r.pick(&cands).clone();
+                    pending.push((join(&p, *r.pick(&["f.x", "probe.o", "n/f.x"])), Some(Mode::FILE), "below-previous-leaf"));
+                    if r.bool() {
+                        pending.push((join(&p, *r.pick(&["g.x", "g.o"])), Some(Mode::FILE), "retry-below-previous-leaf"));
+                    }
+                    (p, m, "leaf-before-descent")
+                }
                 0 if !tree.poison_attr.is_empty() || !tree.poison_ignore.is_empty() => {
                     let all: Vec<&String> = tree.poison_attr.iter().chain(tree.poison_ignore.iter()).collect();
                     let d = (*r.pick(&all)).clone();
@@ -858,6 +917,7 @@ fn worktree_level(ctx: &mut Ctx) {
                     let leaf = *r.pick(&["f.x", "f.o", "keep_root.o", "probe.x", "n.x", "new/deeper/f.x", "new/f.o"]);
                     (join(&d, leaf), *r.pick(&[Some(Mode::FILE), None, Some(Mode::FILE_EXECUTABLE)]), "clean")
                 }
+              }
             };
             if rel.is_empty() {
                 continue;
